@@ -386,6 +386,11 @@ class Translator:
         return "V"
 
     def emit_fn(self, fn, lean_name, path, qual, cls=None):
+        # a decorator changes what the name denotes (caching, wrapping): only the ones whose meaning the translation
+        # accounts for are accepted
+        for dec in fn.decorator_list:
+            if flat(dec) not in ("classmethod", "staticmethod", "property"):
+                raise Unsupported(f"decorator @{src_of(dec)} on {qual} (line {fn.lineno})")
         a = fn.args
         if a.vararg or a.kwarg or a.posonlyargs:
             raise Unsupported(f"signature of {qual}")
@@ -471,6 +476,9 @@ class Translator:
             if cname not in top or not isinstance(top[cname], ast.ClassDef):
                 raise Unsupported(f"class {cname} not found in {path}")
             cdef = top[cname]
+            for dec in cdef.decorator_list:
+                if flat(dec) not in ("dataclasses.dataclass", "dataclass"):
+                    raise Unsupported(f"decorator @{src_of(dec)} on class {cname} (line {cdef.lineno})")
             bases = [b.id for b in cdef.bases if isinstance(b, ast.Name)]
             meths = {n.name: n for n in cdef.body if isinstance(n, ast.FunctionDef)}
             c = {"bases": bases, "methods": meths, "init_owner": None, "attrs": [], "fields": None}
